@@ -11,6 +11,7 @@ import (
 	"github.com/ThreeDotsLabs/watermill/components/delay"
 	"github.com/ThreeDotsLabs/watermill/components/metrics"
 	"github.com/ThreeDotsLabs/watermill/message"
+	"github.com/ThreeDotsLabs/watermill/message/router/middleware"
 	"github.com/prometheus/client_golang/prometheus"
 	dto "github.com/prometheus/client_model/go"
 
@@ -45,8 +46,25 @@ func runC20(c *Ctx) error {
 			mcs = append(mcs, mc{ap, o, false})
 		}
 	}
+	// retried invocations of ONE message object: Retry(Recoverer(metrics(handler))), outs = outcome of each attempt
+	for _, ap := range []int{1, 2} {
+		for _, o := range [][]string{{"panic", "ok"}, {"err", "ok"}, {"err", "panic", "ok"}, {"panic", "panic", "err"}, {"panic", "err", "panic", "ok"}} {
+			mcs = append(mcs, mc{ap, o, true})
+		}
+	}
 	n := c.Pick(10, 2000)
 	for i := 0; i < n; i++ {
+		if i%4 == 3 {
+			var o []string
+			for k := 0; k < 1+c.Rng.Intn(5); k++ {
+				o = append(o, []string{"err", "panic"}[c.Rng.Intn(2)])
+			}
+			if c.Rng.Intn(3) > 0 {
+				o = append(o, "ok")
+			}
+			mcs = append(mcs, mc{1 + c.Rng.Intn(2), o, true})
+			continue
+		}
 		var o []string
 		for k := 0; k < 1+c.Rng.Intn(8); k++ {
 			o = append(o, []string{"ok", "err", "panic", "pubfail"}[c.Rng.Intn(4)])
@@ -58,7 +76,7 @@ func runC20(c *Ctx) error {
 		run.Key = fmt.Sprintf("metrics/%v", mcs[i])
 		mruns = append(mruns, run)
 	}
-	Parallel(len(mcs), func(i int) { c20Metrics(mruns[i], mcs[i].applied, mcs[i].outs) })
+	Parallel(len(mcs), func(i int) { c20Metrics(mruns[i], mcs[i].applied, mcs[i].outs, mcs[i].direct) })
 	c.AddStat("metrics_cases", len(mcs))
 	return nil
 }
@@ -373,10 +391,18 @@ func c20Gather(reg *prometheus.Registry) map[string]map[string]int {
 	return out
 }
 
-func c20Metrics(r *tr.Run, applied int, outs []string) {
+func c20Metrics(r *tr.Run, applied int, outs []string, retried bool) {
 	reg := prometheus.NewRegistry()
 	b := metrics.NewPrometheusMetricsBuilder(reg, "", "")
 	router, _ := message.NewRouter(message.RouterConfig{CloseTimeout: 2 * time.Second}, nil)
+	orig := outs
+	var attempts []string // retried mode: the outcome of each attempt of the single message
+	if retried {
+		// the same message object passes the metrics middleware once per attempt
+		router.AddMiddleware(middleware.Retry{MaxRetries: len(outs) - 1, InitialInterval: time.Millisecond}.Middleware, middleware.Recoverer)
+		attempts = outs
+		outs = []string{"retried"}
+	}
 	for i := 0; i < applied; i++ {
 		b.AddPrometheusRouterMetrics(router)
 	}
@@ -402,6 +428,12 @@ func c20Metrics(r *tr.Run, applied int, outs []string) {
 	router.AddHandler(fmt.Sprintf("r%d-h", r.ID), "in", sub, "out", pub, func(msg *message.Message) ([]*message.Message, error) {
 		mu.Lock()
 		bh := behav[msg.UUID]
+		if bh == "retried" {
+			bh = attempts[0]
+			if len(attempts) > 1 {
+				attempts = attempts[1:]
+			}
+		}
 		switch bh {
 		case "err", "panic":
 			expected["handler"]["false"]++
@@ -486,7 +518,7 @@ func c20Metrics(r *tr.Run, applied int, outs []string) {
 	default:
 	}
 	mu.Lock()
-	r.Emit("metrics", "applied", applied, "outs", outs, "observed", got, "expected", expected)
+	r.Emit("metrics", "applied", applied, "outs", orig, "retried", retried, "observed", got, "expected", expected)
 	mu.Unlock()
 	r.NonTrivial = true
 }
